@@ -225,3 +225,22 @@ Theorem C03_equal_sound_refuted_boxed :
     shape_reg r s 2 a <> shape_reg r s 2 b.
 Proof. exact equal_sound_refuted_boxed. Qed.
 Print Assumptions C03_equal_sound_refuted_boxed.
+(** completeness of [types_equal] on instantiations of one definition (the converse direction of
+    the refuted soundness; proof and fragment: see [C04_instantiations_stay_partial],
+    Properties/C04.v and Proofs/TeqComplete.v): in a program-derived registry two coincidence-free
+    instantiations of a definition of the fragment [teq_program_okb] are judged equal, so the loop
+    of [C03_keep_first_or_error] keeps the first and does not fail on the second.  Outside the
+    fragment this is false for [instantiation_cf] ([C04_instantiations_stay_cf_refuted]). *)
+From V Require Import Model.Program Model.ProgramTeq Proofs.TeqComplete.
+
+Theorem C03_equal_complete_partial :
+  forall defs L r,
+  RegistryOf defs L r ->
+  forall d sd, nth_error defs d = Some sd -> teq_program_okb sd = true ->
+  forall args1 args2,
+  instantiation_cf defs sd args1 = true -> map canon args1 = args1 ->
+  instantiation_cf defs sd args2 = true -> map canon args2 = args2 ->
+  forall id1 id2, L id1 = Some (SApp d args1) -> L id2 = Some (SApp d args2) ->
+  types_equal r id1 id2 = Ok true.
+Proof. exact teq_instantiations_labels. Qed.
+Print Assumptions C03_equal_complete_partial.
